@@ -50,6 +50,9 @@ class ExprMixin:
             return SV(TReal, z3.ToReal(v.t))
         if ty is TInt and v.ty is TBool:
             return SV(TInt, z3.If(v.t, 1, 0))
+        if isinstance(ty, TTuple) and isinstance(v.ty, TTuple) and len(ty.elems) == len(v.ty.elems):
+            comps = [self.coerce(SV(e, v.ty.get(v.t, j)), ty.elems[j], node).t for j, e in enumerate(v.ty.elems)]
+            return SV(ty, ty.mk(*comps))
         if isinstance(ty, TOpt):
             if v.ty is TNone:
                 return SV(ty, ty.none())
@@ -279,6 +282,14 @@ class ExprMixin:
                             return self.eval(sub.value)
                 return SV(None, None, py=("classattr", base.py[1], attr))
         if isinstance(base.ty, TRef):
+            cd = self.reg.classes.get(base.ty.cls)
+            q = f"{base.ty.cls}.{attr}"
+            if cd is not None and attr not in cd.fields and q in self.reg.contracts and not self.spec_mode:
+                # @property with a contract
+                call = ast.Call(func=ast.Attribute(value=ast.Constant(value=None), attr=attr, ctx=ast.Load()), args=[], keywords=[])
+                ast.copy_location(call, node) if node is not None else None
+                ast.fix_missing_locations(call)
+                return self.call_contract(self.reg.contracts[q], base, call)
             key, fty = self.field(base.ty.cls, attr, node)
             arr = self.heap_arr(key, fty)
             r = SV(fty, z3.Select(arr, base.t), ("field", base.t, key, fty))
